@@ -1,6 +1,7 @@
 import St4sd.Lemmas.C04Tree
 import St4sd.Lemmas.C04Flatten
 import St4sd.Lemmas.C04User
+import St4sd.Lemmas.C04Conf
 /-!
 # C04 — Resolved component configuration follows the documented layering order
 
@@ -1101,5 +1102,100 @@ example :
     Tree.get (layerUserFiles [fileA, fileB]).global "g2".toList = some (.str "B".toList) ∧
     Tree.get (layerUserFiles [fileA, fileB]).global "shared".toList = some (.str "B".toList) := by
   refine ⟨by rfl, by rfl, by rfl, by rfl, by rfl, by rfl⟩
+
+/-! ### variable files in the INI flavour (`*.conf`: `DOSINIExperimentConfiguration._fetch_user_variables`) -/
+
+/-- **stage_section_roundtrip**: the section-name → scope map of the `.conf` loader sends every spelling of
+`stage` (any letter case) followed by the decimal digits of `n` to stage `n` - for EVERY `n`, whatever its
+number of digits. -/
+theorem stage_section_roundtrip (p : S) (n : Nat) (hp : lower p = stageWord) :
+    stageSectionIndex (p ++ natToDigits n) = some n :=
+  stageSectionIndex_spelling p n hp
+
+/-- **two_digit_stage_sections**: `[STAGE<n>]` is the scope of stage `n` and of no other stage: sections of
+different stages (`STAGE1`, `STAGE10`, `STAGE11`, `STAGE100`, …) never share a scope. -/
+theorem two_digit_stage_sections (m n : Nat) :
+    stageSectionIndex (stageSectionName n) = some n ∧
+    (stageSectionIndex (stageSectionName m) = stageSectionIndex (stageSectionName n) → m = n) := by
+  have h : ∀ k, stageSectionIndex (stageSectionName k) = some k :=
+    fun k => stageSectionIndex_spelling "STAGE".toList k (by decide)
+  refine ⟨h n, ?_⟩
+  intro e
+  rw [h m, h n] at e
+  exact Option.some.inj e
+
+/-- **conf_file_scopes**: a `.conf` variable file all of whose sections other than `[GLOBAL]` are stage
+sections is accepted; its `global` scope is `[GLOBAL]` and its scope for stage `i` is the LAST section that
+names stage `i` - nothing else. -/
+theorem conf_file_scopes (cf : ConfFile)
+    (hall : ∀ e ∈ confStageSections cf, (stageSectionIndex e.1).isSome = true) :
+    ∃ u, confUser cf = some u ∧ u.global = confGlobal cf ∧
+      ∀ i, lookupN u.stages i = sectionFor (confStageSections cf) i := by
+  obtain ⟨st, hst, hlook⟩ := confStagesAux_spec (confStageSections cf) [] hall
+  refine ⟨⟨confGlobal cf, st⟩, ?_, rfl, ?_⟩
+  · simp only [confUser, hst]
+  · intro i
+    rw [hlook i]
+    cases sectionFor (confStageSections cf) i <;> rfl
+
+/-- **conf_section_reaches_its_stage**: in a `.conf` file whose stage sections name pairwise different
+stages, the options of the section spelled `stage<n>` (any letter case, any number of digits) are exactly the
+user's variables for stage `n`. -/
+theorem conf_section_reaches_its_stage (cf : ConfFile)
+    (hall : ∀ e ∈ confStageSections cf, (stageSectionIndex e.1).isSome = true)
+    (hnd : ((confStageSections cf).map (fun e => stageSectionIndex e.1)).Nodup)
+    (p : S) (n : Nat) (f : Fields) (hp : lower p = stageWord)
+    (hmem : (p ++ natToDigits n, f) ∈ confStageSections cf) :
+    ∃ u, confUser cf = some u ∧ stageOf u n = f := by
+  obtain ⟨u, hu, _, hst⟩ := conf_file_scopes cf hall
+  refine ⟨u, hu, ?_⟩
+  unfold stageOf
+  rw [hst n, sectionFor_of_mem _ hnd _ f n hmem (stageSectionIndex_spelling p n hp)]
+  rfl
+
+/-- **conf_user_variable_layering**: the user-supplied layer of `user_variables_eq_spec_default` when the
+variables come from such a `.conf` file: a variable of a component of stage `n` is looked up in the
+component's override and own variables, then in `[stage<n>]`, then in `[GLOBAL]`, then in the stage and
+global settings of the package. -/
+theorem conf_user_variable_layering (d : Desc) (cf : ConfFile) (N : Nat) (c : Comp) (x : S)
+    (hdef : defaultName ∈ d.platforms) (hi : c.stage < N)
+    (hall : ∀ e ∈ confStageSections cf, (stageSectionIndex e.1).isSome = true)
+    (hnd : ((confStageSections cf).map (fun e => stageSectionIndex e.1)).Nodup)
+    (p : S) (f : Fields) (hp : lower p = stageWord)
+    (hmem : (p ++ natToDigits c.stage, f) ∈ confStageSections cf) :
+    ∃ u, confUser cf = some u ∧
+      get (varsOf (patchUser d u N) defaultName c) x =
+        firstSome [get (ovrVars c defaultName) x, get (compVars c) x, get f x, get (confGlobal cf) x,
+                   get (stageVars d defaultName c.stage) x, get (globalVars d defaultName) x] := by
+  obtain ⟨u, hu, hg, hst⟩ := conf_file_scopes cf hall
+  refine ⟨u, hu, ?_⟩
+  have hs : stageOf u c.stage = f := by
+    unfold stageOf
+    rw [hst c.stage, sectionFor_of_mem _ hnd _ f c.stage hmem (stageSectionIndex_spelling p c.stage hp)]
+    rfl
+  rw [user_variables_eq_spec_default d u N c x hdef hi, hs, hg]
+
+private def confFile12 : ConfFile :=
+  [("GLOBAL".toList, [("tag".toList, .str "user-global".toList)]),
+   ("STAGE1".toList, [("x".toList, .str "one".toList)]),
+   ("stage10".toList, [("x".toList, .str "ten".toList)]),
+   ("Stage11".toList, [("x".toList, .str "eleven".toList)])]
+
+/-- the hypotheses of `conf_section_reaches_its_stage` are satisfiable by a file with `[STAGE1]`, `[stage10]`
+and `[Stage11]`; each section is the scope of its own stage and stage 1 keeps its own section -/
+example :
+    (∀ e ∈ confStageSections confFile12, (stageSectionIndex e.1).isSome = true) ∧
+    ((confStageSections confFile12).map (fun e => stageSectionIndex e.1)).Nodup ∧
+    (match confUser confFile12 with
+     | some u => (Tree.get (stageOf u 1) "x".toList, Tree.get (stageOf u 10) "x".toList,
+                  Tree.get (stageOf u 11) "x".toList, Tree.get u.global "tag".toList)
+     | none => (none, none, none, none)) =
+      (some (.str "one".toList), some (.str "ten".toList), some (.str "eleven".toList),
+       some (.str "user-global".toList)) := by
+  refine ⟨by decide, by decide, by rfl⟩
+
+/-- a section that is neither `[GLOBAL]` nor a stage section makes the loader fail -/
+example : confUser [("STAGEX".toList, [])] = none ∧ confUser [("global".toList, [])] = none := by
+  refine ⟨by rfl, by rfl⟩
 
 end St4sd.C04
